@@ -175,7 +175,7 @@ def _moved_cases(tier):
     out = []
     ets = ["SEG2", "TRI3", "QUAD4", "QUAD8", "TETRA4"] if tier == "quick" else list(Z.ALL_TYPES)
     for et in ets:
-        for prog in ("M[fun]", "G[fun]", "V[fun]") + (("Gs[fun]",) if et != "SEG2" else ()):
+        for prog in ("M[fun]", "G[fun]", "V[fun]") + (("Gs[fun]",) if Z.dim_of(et) >= 2 else ()):
             for mv in MOVES:
                 for first in ((True,) if tier == "quick" else (True, False)):
                     out.append({"kind": "moved", "elemType": et, "program": prog, "move": mv, "evaluate_first": first})
